@@ -158,11 +158,11 @@ static void clientThread(bool unixSock, int port, std::string path, std::string 
 	if (write(fd, msg.data(), msg.size()) != (ssize_t)msg.size()) { close(fd); return; }
 	if (behaviour == 2) { close(fd); return; }                       // closes before reading the reply
 	std::string line;
-	int r = readLineTimeout(fd, line, 8000);
+	int r = readLineTimeout(fd, line, 30000);
 	if (r == 1 && line == "echo:" + token) {
 		g_log->add(CLIENT_ECHO, token, fd);
 		std::string rest;
-		int e = readLineTimeout(fd, rest, 8000);                       // after serve() returns the library closes the socket
+		int e = readLineTimeout(fd, rest, 30000);                       // after serve() returns the library closes the socket
 		g_log->add(e == 0 || e == -1 ? CLIENT_EOF : CLIENT_NOEOF, token, fd);
 	}
 	close(fd);
@@ -291,7 +291,7 @@ static void mode_hist(vf::Ctx& c)
 	for (auto& kv : served) if (kv.second != 1) c.fail("connection-served-more-than-once", kv.first + vf::fmt(" served %d times | ", kv.second) + log.str());
 	for (auto& kv : served) if (kv.first[0] == 'P') c.fail("serve-started-after-stop-returned", "post-stop client " + kv.first + " was served");
 	for (auto& kv : echoed) if (!served.count(kv.first)) c.fail("echo-without-serve", kv.first);
-	for (auto& kv : noeof) c.fail("socket-not-closed-after-serve", kv.first + " got its echo but no EOF within 8 s | " + log.str());
+	for (auto& kv : noeof) c.fail("socket-not-closed-after-serve", kv.first + " got its echo but no EOF within 30 s | " + log.str());
 	if (g_badSocketInServe) c.fail("socket-invalid-inside-serve", vf::fmt("%d checks", (int)g_badSocketInServe));
 	c.count("accepted", accepted);
 	c.count("served_with_token", served.size());
